@@ -83,3 +83,15 @@ package lib
 //@ func Uint64PercentageDiv
 //@   ensures[capped] percent <= 100
 //@   ensures[zero] (dividend == 0 || divisor == 0) ==> percent == 0
+
+// ---- C14: who signed both certificates ---------------------------------------------------------------
+// bothCount(n): how many of the first n committee members have their bit set in both bitmaps
+//@ spec func bothCount(bm1 BSeq, bm2 BSeq, n int) int = n <= 0 ? 0 : bothCount(bm1, bm2, n-1) + ((signerBit(bm1, n-1) && signerBit(bm2, n-1)) ? 1 : 0)
+
+// the result has exactly as many entries as there are members whose bit is set in BOTH bitmaps
+// (that entry k is the k-th such member's key needs a quantified invariant over append that the
+// solvers do not discharge within the time limit; it is left undecided)
+//@ func (*AggregateSignature).GetDoubleSigners
+//@   ensures[count] err == nil ==> len(doubleSigners) == bothCount(bytes(x.Bitmap), bytes(y.Bitmap), len(vs.ValidatorSet.ValidatorSet))
+//@   loop 1 invariant[acc] 0 <= iter && iter <= len(vs.ValidatorSet.ValidatorSet) && mpkBitmap(key) == bytes(x.Bitmap) && mpkBitmap(key2) == bytes(y.Bitmap) && len(doubleSigners) == bothCount(bytes(x.Bitmap), bytes(y.Bitmap), iter)
+//@   loop 1 invariant[frame] unchanged(x.Bitmap, y.Bitmap, vs.ValidatorSet.ValidatorSet)
